@@ -5,3 +5,4 @@ import PsycheModel.TextTable
 import PsycheModel.Lemmas.TextTable
 import PsycheModel.Props.C18
 import PsycheModel.Props.C17
+import PsycheModel.Props.C08
